@@ -49,6 +49,7 @@ type Violation struct {
 // Outcome is the result of running one case.
 type Outcome struct {
 	Violation   *Violation
+	More        []*Violation // further, independently keyed violations of the same case
 	NonTrivial  bool
 	Fingerprint string // distinctness key
 	Steps       int
@@ -81,6 +82,7 @@ type Env struct {
 	Seed     int64
 	Workers  int
 	Repo     string
+	ClockSites, GlobalRand []string // from the instrumenter report
 
 	mu      sync.Mutex
 	closers []func()
@@ -218,6 +220,8 @@ func PrepareSource(w *world.World, prog, dirName string, edits []Edit) (string, 
 	}
 	return src, nil
 }
+
+func removeTree(dir string) error { return os.RemoveAll(dir) }
 
 func editsKey(edits []Edit) string {
 	b, _ := json.Marshal(edits)
